@@ -25,6 +25,11 @@ type c06Case struct {
 	Coalesce int
 	// UploadFirst: the client reads nothing until it has sent its whole stream (then reads everything)
 	UploadFirst bool
+	// EndBody: legacy: the last packet and the end of the chunked IN body travel in one TCP write
+	EndBody bool
+	// HostReadsLate: the host starts reading this many ms after the channel is open; the client closes
+	// the channel right behind its last packet (everything sent before the close still has to arrive)
+	HostReadsLateMs int
 }
 
 type piece struct {
@@ -82,6 +87,14 @@ func CheckC06(l *Lab, verifDir string) int {
 	// more than the path towards the client can buffer
 	for _, tr := range Transports() {
 		add(c06Case{Transport: tr, LenC: 12 << 20, LenH: 24 << 20, PktSizes: []int{32000}, HostSegs: []int{65536}, UploadFirst: true})
+	}
+	// legacy: the client's last packets and the end of its request body arrive together
+	for _, lc := range []int{5003, 40000} {
+		add(c06Case{Transport: "legacy", LenC: lc, LenH: 0, PktSizes: []int{1000}, HostSegs: []int{1}, EndBody: true})
+	}
+	// the client closes the channel right behind its data while the host has not started reading yet
+	for _, tr := range Transports() {
+		add(c06Case{Transport: tr, LenC: 6 << 20, LenH: 0, PktSizes: []int{16000}, HostSegs: []int{1}, HostReadsLateMs: 400})
 	}
 	// lies about the payload length
 	for i := 0; i < l.Pick(12, 120); i++ {
@@ -205,6 +218,15 @@ func c06One(rep *Report, f *Fixture, c c06Case) {
 	if c.UploadFirst {
 		ch.T.PauseReading()
 	}
+	if c.HostReadsLateMs > 0 {
+		ch.B.PauseReading()
+		ch.B.SlowReads(32*1024, 10*time.Millisecond) // ~3 MB/s once it reads
+		pkts = append(pkts, CloseChannel(0))
+		go func() {
+			time.Sleep(time.Duration(c.HostReadsLateMs) * time.Millisecond)
+			ch.B.ResumeReading()
+		}()
+	}
 	go func() {
 		defer wg.Done()
 		if c.UploadFirst {
@@ -222,6 +244,10 @@ func c06One(rep *Report, f *Fixture, c c06Case) {
 			pkts = grouped
 		}
 		for i, p := range pkts {
+			if c.EndBody && ch.T.Kind == "legacy" && i == len(pkts)-1 {
+				ch.T.SendWire("last packet + end of body", append(Chunk(p), []byte("0\r\n\r\n")...))
+				return
+			}
 			if err := ch.T.Send(p); err != nil {
 				return
 			}
@@ -279,7 +305,7 @@ func c06One(rep *Report, f *Fixture, c c06Case) {
 	}
 	W := env.W
 	gotH, toH := ch.T.WaitDataBytesProgress(len(streamH), W)
-	gotC, toC := ch.B.WaitBytesProgress(mustLen, W)
+	gotC, _ := ch.B.WaitBytesProgress(mustLen, W)
 	if c.Lie == "long" {
 		// optional contributions may still be in flight: settle on a sync packet
 		time.Sleep(20 * time.Millisecond)
@@ -333,9 +359,12 @@ func c06One(rep *Report, f *Fixture, c c06Case) {
 	// client -> host
 	if ok, why := matchPieces(pieces, recvC); !ok {
 		rep.Violate("C06/client-to-host-corrupted/"+c.Transport+"/"+c.Lie, why, detail)
-	} else if toC && len(recvC) < mustLen {
+	} else if len(recvC) < mustLen {
 		if f.GW.Alive() && !snap.OutEnded {
 			rep.Violate("C06/client-to-host-incomplete/"+c.Transport, fmt.Sprintf("host received %d bytes of at least %d declared and nothing more for %v", len(recvC), mustLen, W), detail)
+		} else if c.HostReadsLateMs > 0 && f.GW.Alive() {
+			_, how := ch.B.Ended()
+			rep.Violate("C06/client-to-host-lost-at-close/"+c.Transport, fmt.Sprintf("the client sent %d bytes and then closed the channel; the host (which started reading %d ms later) got %d bytes and then %s", mustLen, c.HostReadsLateMs, len(recvC), how), detail)
 		} else if c.Lie == "" && f.GW.Alive() {
 			rep.Violate("C06/tunnel-ended-during-well-formed-traffic/"+c.Transport, fmt.Sprintf("the gateway ended the tunnel after relaying %d of %d client->host bytes although client and host only exchanged well-formed traffic", len(recvC), mustLen), detail)
 		} else {
